@@ -5,7 +5,7 @@ From FPV Require Import Base.Prelude C04.Model C04.Proofs.
 Theorem C04_history_isolated : forall h g,
   fst (run_history g h) = g /\ snd (run_history g h) = map (fun os => snd (compile g os)) h.
 Proof. exact history_isolated. Qed.
-Theorem C04_existing_name_refused : forall g t tr n ok os, mem n t = true -> apply_opts g t tr (OAddFn n ok :: os) = inl 2%N.
+Theorem C04_existing_name_refused : forall g t tr n ok os, mem n t = true -> apply_opts g t tr (OAddFn n ok :: os) = inl 1%N.
 Proof. exact existing_name_refused. Qed.
 Theorem C04_builtins_always_visible : forall g os t, snd (compile g os) = inr t -> forall n, mem n (g_base g) = true -> mem n t = true.
 Proof. exact builtins_always_visible. Qed.
